@@ -597,3 +597,7 @@ pub use self::wasm_simd::wasm_simd_planner::FftPlannerWasmSimd;
 
 #[cfg(test)]
 mod test_utils;
+
+#[cfg(feature = "verif-hooks")]
+#[doc(hidden)]
+pub mod verif_hooks;
